@@ -71,6 +71,7 @@ pub struct K {
     pub sock: Set<c_int>,               // descriptors fstat reports as sockets
     pub log: Seq<Attempt>,              // every transmission attempt, in program order
     pub own_rx: Set<c_int>,             // receive-end descriptors THIS process still holds open
+    pub consumed: Set<c_int>,           // descriptors taken out of their owning OsIpcReceiver (consume_fd): its Drop closes nothing
 }
 
 pub open spec fn spec_frag(s: nat) -> nat { (s - 32) as nat }
